@@ -14,6 +14,7 @@ import (
 	"os/exec"
 	"path/filepath"
 	"regexp"
+	"regexp/syntax"
 	"sort"
 	"strconv"
 	"strings"
@@ -534,6 +535,14 @@ func (a *panicAudit) hasDynType(v ssa.Value, t types.Type, seen map[ssa.Value]bo
 
 func (a *panicAudit) resultHasDynType(c *ssa.Call, idx int, t types.Type, seen map[ssa.Value]bool, depth int) (bool, string) {
 	callee := c.Common().StaticCallee()
+	if callee != nil && callee.String() == "(*sync.Pool).Get" {
+		if g, ok := c.Common().Args[0].(*ssa.Global); ok && a.p.isRepoGlobal(g) {
+			if et := a.p.poolElemType(g); et != nil && types.Identical(et, t) {
+				return true, "the pool's New function and every Put hold " + types.TypeString(t, shortQual) + " only"
+			}
+		}
+		return false, ""
+	}
 	if callee == nil || !a.p.InRepo(callee) || callee.Blocks == nil {
 		return false, ""
 	}
@@ -660,7 +669,111 @@ func (a *panicAudit) boundsSafe(fn *ssa.Function, in ssa.Instruction) (bool, str
 			}
 		}
 	}
+	// (7) submatch slice of a regexp compiled from a constant: non-nil result has 1+NumSubexp entries
+	if need >= 1 {
+		if ok, why := a.submatchIndex(in.Block(), base, need); ok {
+			return true, why
+		}
+	}
 	return false, "no dominating length guard, loop bound, parallel-slice or library fact covers it"
+}
+
+// submatchIndex: base is the result of FindStringSubmatch/FindSubmatch on a package-level regexp that is
+// initialised once with regexp.MustCompile(<constant>); the access is only reached when the result is
+// non-nil (a match), and a match always carries 1+NumSubexp entries.
+func (a *panicAudit) submatchIndex(at *ssa.BasicBlock, base ssa.Value, need int64) (bool, string) {
+	c, ok := base.(*ssa.Call)
+	if !ok {
+		return false, ""
+	}
+	sc := c.Common().StaticCallee()
+	if sc == nil {
+		return false, ""
+	}
+	switch sc.String() {
+	case "(*regexp.Regexp).FindStringSubmatch", "(*regexp.Regexp).FindSubmatch":
+	default:
+		return false, ""
+	}
+	pat, ok := a.p.regexpPattern(c.Common().Args[0])
+	if !ok {
+		return false, ""
+	}
+	re, err := syntax.Parse(pat, syntax.Perl)
+	if err != nil {
+		return false, ""
+	}
+	if int64(re.MaxCap())+1 < need {
+		return false, ""
+	}
+	// reached only when base != nil
+	guarded := false
+	for d := at; d != nil && !guarded; d = d.Idom() {
+		id := d.Idom()
+		if id == nil {
+			break
+		}
+		iff, isIf := id.Instrs[len(id.Instrs)-1].(*ssa.If)
+		if !isIf || len(d.Preds) != 1 {
+			continue
+		}
+		bo, isB := iff.Cond.(*ssa.BinOp)
+		if !isB || bo.X != base {
+			continue
+		}
+		if k, isC := bo.Y.(*ssa.Const); isC && k.IsNil() {
+			onTrue := id.Succs[0] == d
+			if bo.Op == token.NEQ && onTrue || bo.Op == token.EQL && !onTrue {
+				guarded = true
+			}
+		}
+	}
+	if !guarded {
+		return false, ""
+	}
+	return true, fmt.Sprintf("a non-nil submatch result of the constant pattern %q has %d entries", pat, re.MaxCap()+1)
+}
+
+// regexpPattern: v is a load of a package-level *regexp.Regexp that is assigned exactly once, in package
+// initialisation, from regexp.MustCompile(<constant>).
+func (p *Prog) regexpPattern(v ssa.Value) (string, bool) {
+	u, ok := v.(*ssa.UnOp)
+	if !ok || u.Op != token.MUL {
+		return "", false
+	}
+	g, ok := u.X.(*ssa.Global)
+	if !ok {
+		return "", false
+	}
+	pat, n := "", 0
+	for _, fn := range p.Funcs {
+		for _, b := range fn.Blocks {
+			for _, in := range b.Instrs {
+				st, ok := in.(*ssa.Store)
+				if !ok || st.Addr != ssa.Value(g) {
+					continue
+				}
+				n++
+				call, ok := st.Val.(*ssa.Call)
+				if !ok || !isInitFunc(fn) {
+					return "", false
+				}
+				sc := call.Common().StaticCallee()
+				if sc == nil || sc.String() != "regexp.MustCompile" {
+					return "", false
+				}
+				k, ok := call.Common().Args[0].(*ssa.Const)
+				if !ok || k.Value == nil || k.Value.Kind() != constant.String {
+					return "", false
+				}
+				pat = constant.StringVal(k.Value)
+			}
+		}
+	}
+	if n != 1 {
+		return "", false
+	}
+	return pat, true
 }
 
 // lenGuard: a dominating If compares len(base) such that, on the side that can reach the access,
